@@ -6,7 +6,7 @@ V = os.path.join(os.path.dirname(os.path.abspath(__file__)), "..")
 
 def seeded():
     rows = ["| Seeded change | Breaks | Needs | Result of the check(s) | Caught by | Replay |", "|---|---|---|---|---|---|"]
-    for d in sorted(glob.glob(os.path.join(V, "seeded", "*"))):
+    for d in sorted(glob.glob(os.path.join(V, "seeded", "C*"))):
         m = json.load(open(os.path.join(d, "meta.json")))
         name = os.path.basename(d)
         needs = str(m.get("needs", "")).replace("\n", " ").replace("|", "/")
